@@ -3,11 +3,19 @@
 package referenceserver
 
 import (
+	"bytes"
 	"encoding/base64"
+	"encoding/binary"
 	"errors"
+	"net/http"
+	"net/http/httptest"
 	"strings"
+	"sync"
+	"unicode/utf8"
 
+	"connectrpc.com/conformance/internal"
 	conformancev1 "connectrpc.com/conformance/internal/gen/proto/go/connectrpc/conformance/v1"
+	"connectrpc.com/conformance/internal/gen/proto/go/connectrpc/conformance/v1/conformancev1connect"
 	"connectrpc.com/connect"
 	"google.golang.org/genproto/googleapis/rpc/status"
 	"google.golang.org/protobuf/proto"
@@ -17,6 +25,8 @@ import (
 func init() {
 	verifKinds["c13.enc"] = verifC13Enc
 	verifKinds["c13.o.render"] = verifC13ORender
+	verifKinds["c13.o.cerrrender"] = verifC13OCerrRender
+	verifKinds["c13.o.cesrender"] = verifC13OCesRender
 }
 
 // a *connect.Error with the given code, message bytes and details (type name, value bytes)
@@ -101,4 +111,120 @@ func verifC13ORender(args []vsx) vsx {
 	}
 	block := grpcWebStatusEndStream(cerr, verifC13Headers(args[3]))
 	return vL(mo, verifC13HeadersSx(st), vS(block), tbl)
+}
+
+// ---------------------------------------------------------------------------
+// the Connect protocol: what the reference server (its handlers + connect-go) puts on the wire
+// for an error.  The real conformanceServer behind the real connect handler, driven in-process.
+// ---------------------------------------------------------------------------
+var (
+	verifC13HandlerOnce sync.Once
+	verifC13Handler     http.Handler
+)
+
+func verifC13Server() http.Handler {
+	verifC13HandlerOnce.Do(func() {
+		mux := http.NewServeMux()
+		mux.Handle(conformancev1connect.NewConformanceServiceHandler(
+			&conformanceServer{referenceMode: false},
+			connect.WithCodec(internal.StrictJSONCodec{}),
+			connect.WithInterceptors(serverNameHandlerInterceptor{}),
+		))
+		verifC13Handler = mux
+	})
+	return verifC13Handler
+}
+
+func verifC13ProtoError(code int64, msg string, details vsx) (*conformancev1.Error, bool) {
+	if !utf8.ValidString(msg) {
+		return nil, false // a proto3 string: cannot reach the server
+	}
+	perr := &conformancev1.Error{Code: conformancev1.Code(int32(code)), Message: &msg}
+	for _, d := range details.l {
+		if strings.Contains(d.l[0].str(), "/") || !utf8.ValidString(d.l[0].str()) {
+			return nil, false
+		}
+		perr.Details = append(perr.Details, &anypb.Any{TypeUrl: "type.googleapis.com/" + d.l[0].str(), Value: d.l[1].b})
+	}
+	return perr, true
+}
+
+// oracle: code msg details -> (text of the unary Connect error body) | ()
+func verifC13OCerrRender(args []vsx) vsx {
+	perr, ok := verifC13ProtoError(args[0].i, args[1].str(), args[2])
+	if !ok {
+		return vL()
+	}
+	body, err := proto.Marshal(&conformancev1.UnaryRequest{
+		ResponseDefinition: &conformancev1.UnaryResponseDefinition{
+			Response: &conformancev1.UnaryResponseDefinition_Error{Error: perr},
+		},
+	})
+	if err != nil {
+		return vL()
+	}
+	req := httptest.NewRequest(http.MethodPost, conformancev1connect.ConformanceServiceUnaryProcedure, bytes.NewReader(body))
+	req.Header.Set("Content-Type", "application/proto")
+	req.Header.Set("Connect-Protocol-Version", "1")
+	rec := httptest.NewRecorder()
+	verifC13Server().ServeHTTP(rec, req)
+	if rec.Code == http.StatusOK || !strings.HasPrefix(rec.Header().Get("Content-Type"), "application/json") {
+		return vL()
+	}
+	return vL(vB(rec.Body.Bytes()))
+}
+
+// oracle: has-error code msg details trailers n-responses -> (text of the end-of-stream message) | ()
+func verifC13OCesRender(args []vsx) vsx {
+	def := &conformancev1.StreamResponseDefinition{ResponseTrailers: verifC13Headers(args[4])}
+	if args[0].i != 0 {
+		perr, ok := verifC13ProtoError(args[1].i, args[2].str(), args[3])
+		if !ok {
+			return vL()
+		}
+		def.Error = perr
+	}
+	for _, h := range def.ResponseTrailers {
+		if !utf8.ValidString(h.GetName()) {
+			return vL()
+		}
+		for _, v := range h.GetValue() {
+			if !utf8.ValidString(v) {
+				return vL()
+			}
+		}
+	}
+	for i := int64(0); i < args[5].i; i++ {
+		def.ResponseData = append(def.ResponseData, []byte{byte(i)})
+	}
+	msg, err := proto.Marshal(&conformancev1.ServerStreamRequest{ResponseDefinition: def})
+	if err != nil {
+		return vL()
+	}
+	var body bytes.Buffer
+	body.WriteByte(0)
+	var ln [4]byte
+	binary.BigEndian.PutUint32(ln[:], uint32(len(msg)))
+	body.Write(ln[:])
+	body.Write(msg)
+	req := httptest.NewRequest(http.MethodPost, conformancev1connect.ConformanceServiceServerStreamProcedure, &body)
+	req.Header.Set("Content-Type", "application/connect+proto")
+	rec := httptest.NewRecorder()
+	verifC13Server().ServeHTTP(rec, req)
+	if rec.Code != http.StatusOK {
+		return vL()
+	}
+	// the envelopes of the response body; the one flagged 0x02 is the end-of-stream message
+	data := rec.Body.Bytes()
+	for len(data) >= 5 {
+		n := int(binary.BigEndian.Uint32(data[1:5]))
+		if len(data) < 5+n {
+			return vL()
+		}
+		if data[0]&2 != 0 {
+			return vL(vB(data[5 : 5+n]))
+		}
+		data = data[5+n:]
+	}
+	return vL()
 }
